@@ -383,6 +383,8 @@ def run_chunk(job):
             if wr.relevant_deaths(r):
                 d["runs_with_relevant_death"] += 1
             Stats.bump(d["mechanisms"], mechanism(r))
+        if job.get("collect_digests"):
+            d.setdefault("digests", []).append((run_id, r.digest))
         sig = int(r.sig[:15], 16)
         d["sigs"].append(sig)
         if nontrivial(r):
